@@ -1,0 +1,29 @@
+//go:build verif
+
+// Contracts for package geojson, read by /verif's govc. Comment-only.
+package geojson
+
+// C07: layout inference from the length of the first position
+
+//@ func guessLayout0
+//@   ensures len(coords0) < 2 ==> res2 != nil && istype(res2, ErrDimensionalityTooLow) && res1 == 0
+//@   ensures len(coords0) >= 2 ==> res2 == nil && res1 == (len(coords0) == 2 ? 1 : (len(coords0) == 3 ? 2 : (len(coords0) == 4 ? 4 : len(coords0)))) && strideOf(res1) == len(coords0)
+//@   modifies nothing
+
+//@ func guessLayout1
+//@   ensures len(coords1) == 0 ==> res2 == nil && res1 == DefaultLayout
+//@   ensures len(coords1) > 0 && len(coords1[0]) >= 2 ==> res2 == nil && strideOf(res1) == len(coords1[0])
+//@   ensures len(coords1) > 0 && len(coords1[0]) < 2 ==> res2 != nil
+//@   modifies nothing
+
+//@ func guessLayout2
+//@   ensures len(coords2) == 0 ==> res2 == nil && res1 == DefaultLayout
+//@   ensures len(coords2) > 0 && len(coords2[0]) == 0 ==> res2 == nil && res1 == DefaultLayout
+//@   ensures len(coords2) > 0 && len(coords2[0]) > 0 && len(coords2[0][0]) >= 2 ==> res2 == nil && strideOf(res1) == len(coords2[0][0])
+//@   ensures len(coords2) > 0 && len(coords2[0]) > 0 && len(coords2[0][0]) < 2 ==> res2 != nil
+//@   modifies nothing
+
+//@ func guessLayout3
+//@   ensures len(coords3) == 0 ==> res2 == nil && res1 == DefaultLayout
+//@   ensures res2 == nil ==> res1 == DefaultLayout || strideOf(res1) >= 2
+//@   modifies nothing
